@@ -24,7 +24,7 @@ PROPS["C06"] = Prop(
 PARAMS["C06"] = {"rule": "exhaustive: for N in 0..=8, every reachable (front, back), directly and via a clone, every operation with every argument 0..=len+2, bracketed by the passive observers; plus seeded random operation sequences (length ≤ 64) over the length lattice. Distinct = distinct scenario lines; non-trivial = at least one operation returned Some(_)."}
 
 PROPS["C01"] = Prop(
-    "C01", ["GA.Props.C01", "GA.Props.C16", "GA.Props.BodyBoxed", "GA.Props.C19", "GA.Props.C10", "GA.Props.BodyViews"],
+    "C01", ["GA.Props.C01", "GA.Props.C16", "GA.Props.BodyBoxed", "GA.Props.C19", "GA.Props.C10", "GA.Props.BodyViewsChunks", "GA.Props.BodyViewsSlices"],
     [Engine("layout", scen.layout, sig=lambda l: l.split()[0]),
      Engine("layout", scen.layout_full, bin="layout_full", sig=lambda l: l.split()[0]),
      Engine("xmute", scen.xmute, sig=lambda l: "xmute"),
@@ -108,7 +108,7 @@ PARAMS["C09"] = {"rule": "append, prepend, pop_back, pop_front, split at every K
 MEM_TRUST = "modelled, not verified: slice::from_raw_parts(_mut), reference transmutes and pointer casts produce a view at the computed address with the computed length; layouts from C01"
 
 PROPS["C02"] = Prop(
-    "C02", ["GA.Props.C02", "GA.Props.BodyViews"],
+    "C02", ["GA.Props.C02", "GA.Props.BodyViewsSlices"],
     [Engine("views", scen.views, sig=lambda l: l.split()[0], miri=80, body_view=True), Engine("xmute", scen.xmute, sig=lambda l: "xmute")],
     trusted=[KERNEL, TRANSLATOR, HARNESS, MEM_TRUST],
     assumptions=["a view is described by (address offset, element count); aliasing rules beyond address equality (Stacked/Tree Borrows) are not modelled",
@@ -118,7 +118,7 @@ PROPS["C02"] = Prop(
 PARAMS["C02"] = {"rule": "ten borrowed views x length lattice x 5 element kinds (address offset and length vs the array); six checked reinterpretations x source lengths {0, N-1, N, N+1, 2N+1}; AsRef/AsMut<[T;N]>, From<&[T;N]>, array and tuple round trips for every const length; write through each mutable view, read through each view (all ordered pairs)."}
 
 PROPS["C10"] = Prop(
-    "C10", ["GA.Props.C10", "GA.Props.BodyViews"],
+    "C10", ["GA.Props.C10", "GA.Props.BodyViewsChunks"],
     [Engine("chunks", scen.chunks, sig=lambda l: l.split()[0], miri=80, body_view=True)],
     trusted=[KERNEL, TRANSLATOR, HARNESS, MEM_TRUST],
     assumptions=["slice_from_chunks on zero-sized elements with k*N >= 2^64 (the multiplication can wrap; no memory is involved) is outside the theorem's hypothesis",
@@ -128,7 +128,7 @@ PROPS["C10"] = Prop(
 PARAMS["C10"] = {"rule": "chunks_from_slice(_mut) for every L in 0..=4N+3, N in {0,1,2,3,7,8,16,33}, element kinds of 0/1/4/24 bytes: pointer and length of both parts vs the source; slice_from_chunks(_mut), from_chunks(_mut), into_chunks(_mut) for several chunk counts."}
 
 PROPS["C11"] = Prop(
-    "C11", ["GA.Props.C11", "GA.Props.BodyViews"],
+    "C11", ["GA.Props.C11", "GA.Props.BodyViewsRegroup"],
     [Engine("regroup", scen.regroup, sig=lambda l: l.split()[0], miri=60, body_view=True)],
     trusted=[KERNEL, TRANSLATOR, HARNESS, MEM_TRUST, "typenum's Prod/Quot"],
     assumptions=["unflatten is claimed over evenly divisible lengths (its documented domain); other lengths hit the size check (owned) and are shown to stay within the source (by reference)"],
@@ -201,7 +201,7 @@ PROPS["C20"] = Prop(
 PARAMS["C20"] = {"rule": "list form: every element count 0..=64, 100, 128, 255, 256 x {arr!, box_arr!} x {Copy, non-Copy elements} with index-logging element expressions, trailing commas 0/1/2 at small and boundary counts; both repeat forms x N in {0..8,16,17,31,32,33,64,97,255,256,1000,1023,1024} x {arr!, box_arr! (Copy and Clone-only elements)}: type-level length, values, evaluation log. Const positions: each list count and each repeat length as a const item (plus static and const fn bodies), compiled against the crate and compared with the literal at run time."}
 
 PROPS["C18"] = Prop(
-    "C18", ["GA.Props.C18", "GA.Props.C20", "GA.Props.C19", "GA.Props.BodyViews"],
+    "C18", ["GA.Props.C18", "GA.Props.C20", "GA.Props.C19", "GA.Props.BodyViewsSlices", "GA.Props.BodyViewsChunks"],
     [Engine("constapi", scen.constapi, runner=corpora.constapi_runner, sig=lambda l: " ".join(t for t in l.split() if t.split("=")[0] in ("fn", "ty"))),
      Engine("arrconst", scen.arrconst_c18, runner=corpora.arrconst_runner, sig=lambda l: " ".join(t for t in l.split() if t.split("=")[0] in ("form", "pos"))),
      Engine("filldefault", scen.filldefault_c18, runner=corpora.filldefault_runner, sig=lambda l: " ".join(l.split()[:2]))],
